@@ -4,5 +4,7 @@ import common
 
 def main():
     common.cargo_build(["write-sim", "own-sim"])
+    import c03_cpp
+    c03_cpp.build()
     common.log("setup done")
     return 0
